@@ -81,6 +81,7 @@ pub fn gen_c12(seed: u64, thorough: bool) -> Scenario {
     profile: "C12/twin-schedule".into(),
     config,
     ops,
+    server: None,
   }
 }
 
@@ -341,6 +342,7 @@ pub fn gen_c15(seed: u64, thorough: bool) -> Scenario {
     profile: "C15/twin-flags".into(),
     config,
     ops,
+    server: None,
   }
 }
 
